@@ -17,7 +17,7 @@ func (i *Interface) DelayedCacheWriter(ctx context.Context) error {
 	}
 
 	// Check if backend support the Batcher interface.
-	batchPut := i.PutMany(i.options.DelayCachedWrites)
+	batchPut := i.putMany(i.options.DelayCachedWrites)
 	// End batchPut immediately and check for an error.
 	err := batchPut(nil)
 	if err != nil {
@@ -96,7 +96,7 @@ func (i *Interface) flushWriteCache(percentThreshold int) {
 	}
 
 	// Write the full cache in a batch operation.
-	batchPut := i.PutMany(i.options.DelayCachedWrites)
+	batchPut := i.putMany(i.options.DelayCachedWrites)
 	for _, r := range i.writeCache {
 		err := batchPut(r)
 		if err != nil {
@@ -224,4 +224,17 @@ func (i *Interface) updateCache(r record.Record, write bool, remove bool, ttl in
 	}
 
 	return false
+}
+
+// updateCacheAfterBatchPut makes the cache reflect a record that was written
+// to the database with a batch put, which bypasses the cache.
+func (i *Interface) updateCacheAfterBatchPut(r record.Record, remove bool, ttl int64) {
+	// A delayed write of an earlier version is superseded by the batch put.
+	if r.DatabaseName() == i.options.DelayCachedWrites {
+		i.writeCacheLock.Lock()
+		delete(i.writeCache, r.Key())
+		i.writeCacheLock.Unlock()
+	}
+
+	i.updateCache(r, false, remove, ttl)
 }
